@@ -1,0 +1,65 @@
+// SPDX-FileCopyrightText: 2026 The Pion community <https://pion.ly>
+// SPDX-License-Identifier: MIT
+
+//go:build verif
+
+package nack
+
+// This file is only compiled with the "verif" build tag. It exposes the
+// unexported receiveLog and two test controls of GeneratorInterceptor to the
+// external verification harness (property C03). It adds no behaviour to the
+// normal build.
+
+// VerifReceiveLog wraps the unexported receiveLog.
+type VerifReceiveLog struct {
+	l   *receiveLog
+	buf []uint16
+}
+
+// NewVerifReceiveLog calls newReceiveLog and allocates the result buffer the
+// way GeneratorInterceptor.loop does (size entries).
+func NewVerifReceiveLog(size uint16) (*VerifReceiveLog, error) {
+	l, err := newReceiveLog(size)
+	if err != nil {
+		return nil, err
+	}
+
+	return &VerifReceiveLog{l: l, buf: make([]uint16, size)}, nil
+}
+
+// Add calls receiveLog.add.
+func (v *VerifReceiveLog) Add(seq uint16) { v.l.add(seq) }
+
+// Get calls receiveLog.get.
+func (v *VerifReceiveLog) Get(seq uint16) bool { return v.l.get(seq) }
+
+// MissingSeqNumbers calls receiveLog.missingSeqNumbers and copies the result.
+func (v *VerifReceiveLog) MissingSeqNumbers(skipLastN uint16) []uint16 {
+	r := v.l.missingSeqNumbers(skipLastN, v.buf)
+	out := make([]uint16, len(r))
+	copy(out, r)
+
+	return out
+}
+
+// VerifGenReopen re-arms the close channel after Close() so that a following
+// BindRTCPWriter starts a new ticker loop over the same receiveLogs and
+// nackCountLogs. The harness uses Close()/VerifGenReopen to run the loop one
+// tick at a time (Close waits for the loop goroutine and therefore for every
+// RTCP write of the tick).
+func VerifGenReopen(n *GeneratorInterceptor) {
+	n.m.Lock()
+	defer n.m.Unlock()
+	n.close = make(chan struct{})
+}
+
+// VerifGenSetNackCount sets nackCountLogs[ssrc][seq] (used by one regression
+// witness to reach the state after tens of thousands of ticks quickly).
+func VerifGenSetNackCount(n *GeneratorInterceptor, ssrc uint32, seq, count uint16) {
+	n.receiveLogsMu.Lock()
+	defer n.receiveLogsMu.Unlock()
+	if n.nackCountLogs[ssrc] == nil {
+		n.nackCountLogs[ssrc] = map[uint16]uint16{}
+	}
+	n.nackCountLogs[ssrc][seq] = count
+}
